@@ -6,10 +6,10 @@ impl EncoderState {
     spec fn tail(&self, iov: &OwningIovec) -> Seq<u8> {
         iov.bytes().skip(self.body_start()) + (if self.maybe_mid_stuff { seq![0xfeu8] } else { seq![] })
     }
-    spec fn wf(&self, iov: &OwningIovec, params: Parameters) -> bool {
-        &&& params_ok(params)
+    spec fn wf_i(&self, iov: &OwningIovec, m0: int, m1: int) -> bool {
+        &&& lims_ok(m0, m1)
         &&& (self.backref.blen() == 1 || self.backref.blen() == 2)
-        &&& self.max_chunk_size@ == (if self.first() { params.max_initial_size@ } else { params.max_subsequent_size@ })
+        &&& self.max_chunk_size@ == (if self.first() { m0 } else { m1 })
         &&& 0 <= self.backref.start()
         &&& self.body_start() + self.current_chunk_size == iov.bytes().len()
         &&& iov.pending().contains(self.backref.start())
@@ -17,15 +17,19 @@ impl EncoderState {
         &&& no_stuff(self.tail(iov))
         &&& (!self.maybe_mid_stuff && self.current_chunk_size > 0 ==> iov.bytes().last() != 0xfeu8)
     }
+    spec fn wf(&self, iov: &OwningIovec, params: Parameters) -> bool { self.wf_i(iov, lim0(params), lim1(params)) }
     spec fn bumped(&self, pre: &Self, n: int) -> bool {
         &&& self.max_chunk_size == pre.max_chunk_size
         &&& self.current_chunk_size == pre.current_chunk_size + n
         &&& self.maybe_mid_stuff == pre.maybe_mid_stuff
         &&& self.backref == pre.backref
     }
-    spec fn meaning(&self, iov: &OwningIovec, params: Parameters, z: Seq<u8>) -> Seq<u8> {
+    spec fn meaning_i(&self, iov: &OwningIovec, m1: int, z: Seq<u8>) -> Seq<u8> {
         iov.bytes().take(self.backref.start())
-            + enc(self.tail(iov) + z, self.max_chunk_size@ as int, params.max_subsequent_size@ as int, self.first())
+            + enc(self.tail(iov) + z, self.max_chunk_size@ as int, m1, self.first())
+    }
+    spec fn meaning(&self, iov: &OwningIovec, params: Parameters, z: Seq<u8>) -> Seq<u8> {
+        self.meaning_i(iov, lim1(params), z)
     }
 }
 
